@@ -156,6 +156,15 @@ CLAIMED.update({
             "Cell pool: strings, whole numbers up to 2^53 as digit sequences, dyadic fractions with <= 4 fractional bits, booleans, "
             "18 boundary dates 1900-03-01..9999-12-31, 10 times of day; arbitrary floats are not decided (no floating point in TLC).",
             "DESIGN.md section 5, C16"),
+    "C18": ("TLA+ spec Cli.tla (argument parsing, CID loading, one Cid for all files, sticky rejection flag, unreadable file ends "
+            "the run): TLC exhaustive over argument states x CID states x every ordered list of <= 3 files over 6 kinds x 5 --until "
+            "settings; every behaviour replayed through applications.main with real csv / ods / xlsx files",
+            "TLC checks ExitCodeTable (the machine's exit code equals the order-independent table) and ZeroIffAllAccepted; replay "
+            "compares the exit code (SystemExit code for argument errors) for CID and data stored as csv (all cases), ods and xlsx "
+            "(sample; thorough all, plus subprocess runs); cutplace.validate on every file kind x limit ties the verdict to the API.",
+            "File kinds are abstract (first offending row 0 / 2 / 3, missing, directory); --until in {absent, -1, 0, 2, 9}; when an "
+            "unreadable and a rejected file meet, 3 is expected in either order.",
+            "DESIGN.md section 5, C18"),
 })
 
 NOT_BUILT = "check not built yet in this round (planned: see DESIGN.md section 5)"
